@@ -117,7 +117,7 @@ def sequential_item(args) -> Counter:
     for i, (r, v) in enumerate(zip(reqs, verdicts)):
         if v == 'ignored':
             continue
-        clients.append(session.ClientSpec(f'c{i}-{r[0]}{TEAMS.index(r[1])}v{r[2]}', r[0], client_script(r, v, table, plan, hold), gate=i))
+        clients.append(session.ClientSpec(f'c{i}-{r[0]}{TEAMS.index(r[1]) if r[1] in TEAMS else "x"}v{r[2]}', r[0], client_script(r, v, table, plan, hold), gate=i))
     rp = {'kind': 'admission-seq', 'requests': [list(r) for r in reqs], 'seed': seed, 'hold': bool(hold)}
     x = world.execute(session.scripted_setup([plan], clients), prims.Policy(), horizon=500_000)
     if x.status == 'internal':
@@ -179,6 +179,9 @@ def sequential_items(seed: int, tier: str):
     # refusals in a row, and a refusal as the very last arrival before the table fills up
     extra = [[('N', TEAMS[0], 17), ('N', TEAMS[0], 17), ('N', TEAMS[0], 18), ('N', TEAMS[1], 18), ('S', TEAMS[1], 18), ('S', TEAMS[0], 18), ('E', TEAMS[0], 18),
               ('E', TEAMS[1], 18), ('W', TEAMS[1], 17), ('W', TEAMS[0], 18)]]
+    # team names that differ only in white space are different names
+    for a, b in (('Red  Sox', 'Red Sox'), ('Red Sox', 'Red  Sox'), ('a\tb', 'a b'), ('a.b', 'a b')):
+        extra.append([('N', a, 18), ('S', b, 18), ('S', a, 18), ('E', b, 18), ('W', a, 18), ('W', b, 18)])
     for reqs in extra:
         items.append((reqs, seed, 0))
     return items, len(states)
